@@ -208,6 +208,12 @@ def run_keys(spec, res):
         'gtt': G[0, 0], 'gtx': G[0, 1], 'gty': G[0, 2], 'gtz': G[0, 3],
         'gdown4': G, 'gup4': Gi, 'gdet': -al ** 2 * det,
         'dttau': np.sqrt(np.abs(-G[0, 0])),
+        # fluid left at its Eulerian default: u = n, projector h^a_b = delta^a_b + u^a u_b
+        'uup4': nup, 'udown4': ndn,
+        'hdown4': G + np.einsum('a...,b...->ab...', ndn, ndn),
+        'hup4': Gi + np.einsum('a...,b...->ab...', nup, nup),
+        'hmixed4': (np.eye(4).reshape((4, 4) + (1,) * len(n))
+                    + np.einsum('a...,b...->ab...', nup, ndn)),
     }
     got = {}
     with common.Quiet():
